@@ -4,9 +4,10 @@
 // Roots: every function of x/<mod>/abci.go and x/<mod>/keeper/abci.go, the BeginBlock/EndBlock methods of
 // x/<mod>/module.go, and (because gov's end-blocker dispatches through the proposal router) every method of
 // the proposal handlers in x/<mod>/proposal_handler.go.
-// Reachability: static calls followed by NAME for -depth levels inside /repo/x (a call `recv.F(...)`
+// Reachability: static calls followed by NAME to a fixpoint (the whole closure; -depth limits it) inside /repo/x (a call `recv.F(...)`
 // reaches every method or function named F declared in the package the selector names, or, for an unknown
-// receiver, in any package of /repo/x) -- a conservative over-approximation.
+// receiver -- this includes calls through the expected-keeper INTERFACES wired in app.go, e.g. k.rk.F(...) --
+// every method named F in any package of /repo/x) -- a conservative over-approximation.
 // Sites (syntactic): explicit panic(...); calls of Must*; Dec/Int division (.Quo*, .Div, .Mod) and integer
 // `/` `%` with a non-literal divisor; .Sub( / .SafeSub( (Coins.Sub panics below zero); coin constructors that
 // validate (NewCoin, NewInt64Coin, NewDecCoin, NewDecCoinFromDec); unchecked type assertions x.(T);
@@ -61,7 +62,7 @@ func coqStr(s string) string { return "\"" + strings.ReplaceAll(s, "\"", "\"\"")
 func main() {
 	repo := flag.String("repo", "/repo", "repository root")
 	out := flag.String("out", "", "output .v file")
-	depth := flag.Int("depth", 3, "call levels followed below the roots")
+	depth := flag.Int("depth", 1000, "call levels followed below the roots (default: the whole closure)")
 	flag.Parse()
 	fset := token.NewFileSet()
 	var all []*fn
